@@ -78,6 +78,24 @@ func init() {
 		},
 		Rule: "read-modify-write clients on <=5 overlapping keys incl. long-running transactions held over many other commits; for every Commit the harness computes from the model whether a commit with ts > readTs wrote a key this transaction read (Get outside own writes, iterator Item, Seek key): ErrConflict iff such a witness exists; rejected commits must stay invisible (C01 oracle on later reads). non-trivial = the run contains >=1 commit attempt of a transaction that had read a key while another commit was allocated after its begin",
 	})
+	// C08 crash prefix (kill model: page cache survives)
+	p8 := profT("R-C08")
+	p8.MinClients, p8.MaxClients, p8.MaxOps = 1, 3, 12
+	p8.WIter, p8.WGet = 1, 2
+	p8.WSet, p8.WDel = 8, 3
+	p8.WCommitWith = 2
+	p8.Groups = [][]string{nil}
+	p8.MaxDec = 60
+	register(&Scenario{Prop: "C08", Family: "R", Level: "fault_enumeration", Profile: p8,
+		Gen: func(t *rapid.T) *Case {
+			c := GenCase(t, p8)
+			c.Faults.CrashEvery = 1
+			return c
+		},
+		Run:    func(t *testing.T, c *Case, keep bool) Outcome { return ExecuteCrash(t, c, p8, keep) },
+		Rule:   "short histories (1-3 clients x <=12 ops, tiny memtables pre-filled so that rotation+flush happen inside the history) run under the scheduler; EVERY persistence event of the history (mmap create/write/msync/truncate/delete, fd write/fsync/rename/remove, dirsync; up to 400 per history) is a kill-9 image (directory as the page cache holds it); each image is re-opened with the real code and checked: Open succeeds, no version that was never written, visible state == some commit-ts-order prefix containing every commit acknowledged before the event, structure (C14), new commit gets a higher ts (C11). evaluations = histories; distinct = distinct interleavings of histories with >=2 images; the number of verified images is in probes",
+		Assume: []string{"kill model: everything written through mmap or write(2) before the crash point survives; identical consecutive directory states are verified once"},
+	})
 	// C04 own writes
 	p4 := profT("T-C04")
 	p4.WIter = 5
